@@ -10,6 +10,7 @@ F7  a parser function that fails has reported an error; Ok results only without 
 F8  the literal parser only parses literal children when asked to
 F12 every node the literal parser can build in literal mode has an arm of its own in into_literal
 F13 cross-reference: self-containing type definitions are rejected before function bodies are checked (C17-T16), else check / compile overflow the stack
+F14 the exhaustiveness check tests whether a column is looked at by any row before it splits it (wide `let` / `for` bindings stay polynomial)
 F10 AST-chosen indices in the type checker are compared with the length before they are used
 F11 cross-reference: forward const references, unknown / non-usize array-size consts and non-numeric const arithmetic are rejected by the
     checker (C17 T9 / T10 / T11); otherwise compile() panics on such text
@@ -35,7 +36,7 @@ LEVEL_TEXT = (
     "Found with it: the unterminated-comment hang, the EOF unwrap, the `0..0` underflow, the struct-literal panic and a second, "
     "previously unknown hang (match cut off after a braced clause). Not decided: panics of check.rs / compile.rs beyond F10 on inputs "
     "the parser accepts (C05), recursion depth on pathologically nested input, well-formedness (start <= end) of locations."
-    " F12: every node the literal parser can build in literal mode has an arm in into_literal; F13: self-containing type definitions are rejected before anything recurses over them (C17-T16).")
+    " F12: every node the literal parser can build in literal mode has an arm in into_literal; F13: self-containing type definitions are rejected before anything recurses over them (C17-T16). F14: a structural necessary condition of 'terminate promptly' for the exhaustiveness check - columns no row looks at are recognised (the running time itself is not bounded statically).")
 LEVEL_NOTE = ("Trusted: rustc MIR; Peekable::next / peek return None once the underlying iterator is exhausted. The idiom for "
               "prettify_meta's unguarded `lines[l]` is accepted by name (l < end line of a token of the same text).")
 EXPLANATION = ("Scope of the interpreter: every function of scan.rs and parse.rs (closures included). Loops whose exit is the exhaustion "
@@ -721,6 +722,68 @@ def rule_f13(ctx):
     return res
 
 
+def rule_f14(ctx):
+    """The exhaustiveness check recurses once per constructor of a column (two for a bool, at least two for a number).  A column
+    that no row looks at - only identifiers / wildcards at its head - decides nothing; splitting it anyway doubles the work with
+    every such column, so `let u = t;` for a tuple or struct of n fields takes 2^n steps (40 fields: days).  Every binding
+    (`let`, `for`) runs this check since the irrefutability repair, so an ordinary copy of a wide record never finishes checking.
+    Structural part decided here: usefulness / split_ctor test whether every row has an identifier at the head of the column (an
+    all / any over the rows, or a flag set in a loop over them) - the special handling of wildcard-only columns exists."""
+    res = RuleResult("F14", "the exhaustiveness check does not split a column that only identifiers / wildcards look at (no 2^n blow-up for wide bindings)")
+    found = []
+    units = []
+    for fid in ("check::usefulness", "check::split_ctor"):
+        if not ctx.has_fn(fid):
+            raise AnchorMissing("F14: %s not found" % fid)
+        units.append(fid)
+        units += sorted(ctx.cg.closures_of.get(fid, ()))
+
+    def tests_identifier(body):
+        """a switch over PatternEnum that separates Identifier from the other variants and decides a bool"""
+        for b in range(body.n):
+            info = body.switch_info(b)
+            if info and info[2] == "ast::PatternEnum" and "Identifier" in info[1].values():
+                t = body.term(b)
+                names = {info[1].get(v) for v, _ in t["targets"]}
+                if names == {"Identifier"}:
+                    return b
+        return None
+    for fid in ("check::usefulness", "check::split_ctor"):
+        body = ctx.body(fid)
+        # (1) rows.iter().all(|p| matches!(p.first(), Some(Pattern(Identifier(_), ..)))) / any(..)
+        for b, t in body.calls():
+            if (t["func"].get("declared") or "") in ("std::iter::Iterator::all", "std::iter::Iterator::any") and len(t["args"]) == 2 and t["args"][1]["k"] in ("copy", "move"):
+                if not any(r == ("arg", 1) for (r, p) in body.deep_sources(t["args"][0], 4)):
+                    continue
+                for (r, p) in body.trace(t["args"][1]["place"], through={}):
+                    if r[0] == "agg":
+                        cid = body.blocks[r[1]]["stmts"][r[2]]["rv"].get("closure")
+                        if cid and ctx.has_fn(cid) and ctx.body(cid).locals[0]["ty"] == "bool" and tests_identifier(ctx.body(cid)) is not None:
+                            # the verdict is branched on
+                            if any(body.term(x) and body.term(x)["k"] == "switch" and any(r2[:2] == ("call", b) for (r2, p2) in body.deep_sources(body.term(x)["discr"], 2)) for x in range(body.n)):
+                                found.append((fid, t["sp"], "all / any over the rows"))
+        # (2) a flag cleared / set in a loop over the rows under the same test
+        sw = tests_identifier(body)
+        if sw is not None:
+            for lp in body.loops():
+                if sw not in lp["body"]:
+                    continue
+                nexts = [x for x in lp["body"] if body.term(x) and body.term(x)["k"] == "call" and body.term(x)["func"].get("declared") == "std::iter::Iterator::next"]
+                over_rows = any(r == ("arg", 1) for x in nexts for (r, p) in body.deep_sources(body.term(x)["args"][0], 6))
+                flags = [st for x in lp["body"] for st in body.blocks[x]["stmts"] if st["k"] == "assign" and not st["place"]["p"] and body.locals[st["place"]["l"]]["ty"] == "bool"
+                         and st["rv"]["k"] == "use" and st["rv"]["op"]["k"] == "const" and body.local_name(st["place"]["l"])]
+                if over_rows and flags:
+                    found.append((fid, flags[0]["sp"], "flag set in a loop over the rows"))
+    if found:
+        res.ok({"function": found[0][0], "line": found[0][1][1], "verdict": "the heads of all rows are tested for being identifiers (%s)" % found[0][2]})
+    else:
+        res.bad(Finding("F14", "check::usefulness", "columns that no pattern looks at are split like any other",
+                        "neither usefulness nor split_ctor tests whether every row has an identifier at the head of the column: every such column is split into two or more "
+                        "constructors and the check recurses for each, 2^n steps for `let u = t;` with a tuple / struct of n fields (20 fields: 1 s, 30: minutes, 40: days)",
+                        ctx.fn("check::usefulness")["sp"]))
+    return res
+
+
 def run(ctx):
     out = []
 
@@ -730,7 +793,7 @@ def run(ctx):
             return r
         g.__name__ = fn.__name__
         return g
-    results = ctx.run_rules([rule_f1_f2, rule_f3, rule_f4_f5, rule_f6, rule_f7, rule_f8, rule_f10, rule_f11, rule_f12, rule_f13])
+    results = ctx.run_rules([rule_f1_f2, rule_f3, rule_f4_f5, rule_f6, rule_f7, rule_f8, rule_f10, rule_f11, rule_f12, rule_f13, rule_f14])
     for r in results:
         if isinstance(r, list):
             out.extend(r)
